@@ -2,6 +2,7 @@ import FinamModel.Output
 import FinamModel.Translated.Output__interpolate
 import FinamModel.Translated.Output__clear_data
 import FinamModel.Translated.Output_get_data
+import FinamModel.Translated.push_data_gate
 import FinamModel.Static
 import FinamModel.Props.C09
 import FinamModel.Props.C08
@@ -390,5 +391,35 @@ theorem tr_Output_get_data_nodata {α} (ci : List (Nat × Option Int)) (ex : Int
     Tr.Output_get_data (some ()) ex ci ([] : List (Int × α)) st t target = .error .noData := by
   unfold Tr.Output_get_data
   by_cases h : ex < Py.len ci <;> simp [h]
+
+/-- **`Output.push_data`, the decision before the payload is prepared** (translated slice): a publication is refused
+    with "no data" while the metadata exchange with a connected end point is outstanding; a static output accepts its
+    first publication (and drops the time) and refuses every further one with a static-data error — `SOut.push`; a
+    non-static output lets every publication through with its time. -/
+theorem tr_push_data_gate {α} (ci : List (Nat × Option Int)) (ex : Int) (d : List (Int × α)) (st : Bool)
+    (t : Option Int) (hex : ¬ ex < Py.len ci) :
+    Tr.push_data_gate true ex ci d st t =
+      (if st then (if d = [] then .ok none else .error .staticErr) else .ok t) := by
+  unfold Tr.push_data_gate
+  cases st with
+  | false => simp [hex, Tr.push_data_gate.join1]
+  | true =>
+    cases d with
+    | nil => simp [hex, Tr.push_data_gate.join1]
+    | cons p r =>
+      have : Py.len r + 1 > 0 := by have := len_nonneg r; omega
+      simp [hex, this]
+
+theorem tr_push_data_gate_static {α} (ci : List (Nat × Option Int)) (ex : Int) (d : List (Int × α)) (t : Option Int)
+    (v : α) (hex : ¬ ex < Py.len ci) :
+    (Tr.push_data_gate true ex ci d true t).isOk = (SOut.push ⟨d.head?.map Prod.snd⟩ v).isOk := by
+  rw [tr_push_data_gate ci ex d true t hex]
+  cases d <;> simp [SOut.push, Except.isOk, Except.toBool]
+
+theorem tr_push_data_gate_not_exchanged {α} (ci : List (Nat × Option Int)) (ex : Int) (d : List (Int × α)) (st : Bool)
+    (t : Option Int) (hex : ex < Py.len ci) :
+    Tr.push_data_gate true ex ci d st t = .error .noData := by
+  unfold Tr.push_data_gate
+  simp [hex]
 
 end Finam.Props.C20
